@@ -123,7 +123,7 @@ def operand(draw, quantity, n, dtype, exp_range):
     return {"unit": unit, "values": vals}
 
 
-SHAPES = ["scalar", "1d", "2d", "pixel", "2dgeo"]
+SHAPES = ["scalar", "1d", "2d", "pixel", "2dgeo", "mixed"]
 
 
 @st.composite
@@ -144,6 +144,12 @@ def operands(draw, names, data_name, dtype=None, shapes=SHAPES, int_ops=False):
             dims, n = (["x"], nx) if is_data else (["spectrum"], ns)
         elif shape == "pixel":
             dims, n = ([], 1) if is_data else (["spectrum"], ns)
+        elif shape == "mixed":
+            # every operand picks its own layout: per-pixel flight path with a scalar angle, ... (seeded/C01-s8)
+            if is_data:
+                dims, n = draw(st.sampled_from([(["x"], nx), (["x"], nx), ([], 1)]))
+            else:
+                dims, n = draw(st.sampled_from([([], 1), (["spectrum"], ns), (["spectrum", "x"], ns * nx)]))
         else:  # 2dgeo
             dims, n = (["x"], nx) if is_data else (["spectrum", "x"], ns * nx)
         op_dtype = dtype
@@ -322,7 +328,7 @@ def check_kernel(case):
 
 @st.composite
 def route_cases(draw):
-    case = draw(operands(["tof", "Ltotal", "two_theta"], "tof", shapes=["scalar", "1d", "2d", "pixel"]))
+    case = draw(operands(["tof", "Ltotal", "two_theta"], "tof", shapes=["scalar", "1d", "2d", "pixel", "mixed", "mixed"]))
     return case
 
 
@@ -392,7 +398,7 @@ def roundtrip_cases(draw):
     elif which == "lam-E-lam":
         case = draw(operands(["wavelength"], "wavelength", shapes=["scalar", "1d"]))
     else:
-        case = draw(operands(["wavelength", "two_theta"], "wavelength", shapes=["scalar", "1d", "2d", "pixel"]))
+        case = draw(operands(["wavelength", "two_theta"], "wavelength", shapes=["scalar", "1d", "2d", "pixel", "mixed"]))
     case["which"] = which
     return case
 
